@@ -76,6 +76,18 @@ def check_text(case, stats):
     if stop[0] == "ok":
         raise Violation(case, "stop-at-first-error mode accepts a document the collecting mode rejects\n%s" % text)
     generic_invariants(case, text, real[1], stop[1])
+    # the flag is used for its truth value: 1 (from a command-line option or the environment) means the same as True
+    flagged = gh.Parser(gh.AstBuilder(gh.IdGenerator()))
+    flagged.stop_at_first_error = 1
+    try:
+        flagged.parse(text, gh.TokenMatcher(dflt))
+        r = ("ok",)
+    except gh.CompositeParserException as e:
+        r = ("err", [gh.err_tuple(x) for x in e.errors])
+    except gh.ParserException as e:
+        r = ("err", [gh.err_tuple(e)])
+    if r != stop:
+        raise Violation(case, "with stop_at_first_error = 1 the parser raises %r, with True %r\n%s" % (r[1:] and r[1][:3], stop[1], text))
     # shallow copies of a parser (prototype / clone pattern) that are given the other error mode behave as that mode
     import copy
     proto = gh.Parser(gh.AstBuilder(gh.IdGenerator()))
